@@ -132,6 +132,8 @@ def one_case(rep, drv, case):
 	def topy(v, arr):
 		if isinstance(v, list):
 			l = [float(Fraction(x)) for x in v]
+			if case.get('dtype'):
+				return np.array([int(x) for x in l], dtype=case['dtype'])          # integer arrays of a narrow dtype are arrays of numbers like any other
 			return np.array(l) if arr else l
 		return float(Fraction(v))
 	py = py_ww(T, *[topy(args[k], case.get('arr', {}).get(k, False)) for k in ('h', 'K', 'd', 'c')])
@@ -200,6 +202,16 @@ def run(rep, drv):
 			rep.case('ww-exact', dict(cz, call=j), nontrivial=True); rep.count('ww:call-history')
 			nz = lambda v: [Fraction(x) for x in v] if isinstance(v, list) else [Fraction(v)] * T
 			compare(rep, 'ww-exact', dict(cz, history=calls[:j]), py, m, True, (nz(cz['h']), nz(cz['K']), nz(cz['c']), nz(cz['d'])))
+	# NumPy integer arrays of narrow dtypes: the costs are numbers, not int16/int32/uint8 registers (sums and products beyond the dtype's range)
+	for dt, cz in (('int16', {'T': 4, 'h': ['2'] * 4, 'K': ['300'] * 4, 'd': ['120', '90', '100', '110'], 'c': ['150', '140', '160', '155']}),
+				   ('int32', {'T': 3, 'h': ['1'] * 3, 'K': ['1000'] * 3, 'd': ['50000', '60000', '40000'], 'c': ['50000', '45000', '52000']}),
+				   ('uint8', {'T': 4, 'h': ['3'] * 4, 'K': ['200'] * 4, 'd': ['90', '80', '70', '100'], 'c': ['0'] * 4}),
+				   ('int64', {'T': 3, 'h': ['1'] * 3, 'K': ['10'] * 3, 'd': ['5', '6', '4'], 'c': ['1', '1', '1']})):
+		cz = dict(cz, dtype=dt)
+		py, m = one_case(rep, drv, cz)
+		rep.case('ww-exact', cz, nontrivial=True); rep.count('ww:integer-array-dtype-' + dt)
+		nz = lambda v: [Fraction(x) for x in v]
+		compare(rep, 'ww-exact', cz, py, m, True, (nz(cz['h']), nz(cz['K']), nz(cz['c']), nz(cz['d'])))
 	for i in range(n):
 		T = rng.randint(1, Tmax) if i > 20 else rng.randint(1, 3)
 		kind = rng.choice(['int', 'quarter'])
